@@ -123,7 +123,12 @@ class InputExp(_Validation, fsm.FSM):
 
     def cond_put(self) -> bool:
         data = fsm.fsm_event_data.get()
-        value = data['value']
+        try:
+            value = data['value']
+        except KeyError:
+            # wrong event parameters are not a reason for aborting the simulation
+            self.log_warning("rejecting a 'put' event without the 'value' item")
+            return False
         try:
             value = self._validate(value)
         except ValueError as err:
